@@ -11,10 +11,54 @@ import hmac
 import itertools
 
 from symx import core, loader, shims
-from symx.core import SI, SBytes, check, s_and, s_or, s_not, s_implies, assume, conc_value, concretize
+from symx.core import SI, SBytes, check, s_and, s_or, s_implies, assume, conc_value, concretize
 from vlib.run import Ob, sym_run, merge_runs
 
 PROPERTY = "C11"
+
+META = {
+    "bounds": {
+        "quick": {
+            "wallets": "P2SH multisig (cosigner xpubs at m/45'/0) and native P2WSH multisig (xpubs at m/48'/1'/0'/2'), 1-of-2 and 2-of-3, fixed seeds, "
+                       "testnet; cosigner xpubs reach describe either as PSBT global xpub records or as the hdpubkey_map argument",
+            "O1": "1..3 inputs x 1..3 outputs; every input (UTXO) amount and every output amount symbolic in [0, 21*10^14] with sum(inputs) > 0; "
+                  "change output absent / at each position / two change outputs; payee outputs p2wpkh and p2pkh",
+            "O2": "1 input, payee + candidate output whose scriptPubKey hash (20 or 32 bytes) is symbolic; candidate shapes (scriptPubKey kind, attached "
+                  "field): (p2sh, redeem) (p2wsh, witness) (p2wsh, redeem) (p2sh, witness) (p2sh, redeem=p2wsh program + witness); attached script keys: "
+                  "genuine change keys / all keys from one cosigner at consecutive indices / last cosigner's key replaced by a foreign signer's / foreign "
+                  "key added / last key dropped; every derivation fingerprint of the candidate symbolic (4 bytes each) when the xpubs come through "
+                  "hdpubkey_map; quorum opcodes OP_m and OP_n of the attached script symbolic in [0x50, 0x54]",
+            "O3": "2 inputs, payee + genuine change; alterations (assumed different from the original): non-witness UTXO version / input sequence / both "
+                  "output amounts / UTXO scriptPubKey hash / locktime, all symbolic at once; witness-UTXO scriptPubKey hash (32 symbolic bytes); input "
+                  "and output attached script: first key 33 symbolic bytes, OP_m and OP_n in [0x50, 0x54]; one derivation fingerprint: 4 symbolic "
+                  "bytes (hdpubkey_map) or {another cosigner's, a foreign signer's, zero} (global xpubs); one derivation path: branch in {0,1} x "
+                  "index in 0..3"},
+        "thorough": {"same as quick, plus": "symbolic quorum opcodes also with symbolic fingerprints; UTXO / script alterations in both xpub modes; "
+                                            "quorum opcodes in [0x4f, 0x58]"}},
+    "outside": [
+        "amounts of witness-UTXO-only inputs (native segwit) are not committed by anything the PSBT carries: the summary repeats whatever amount the "
+        "PSBT states (inherent to BIP174 v0; noted, not flagged)",
+        "the summary text, percentages and address strings (an output with symbolic scriptPubKey bytes gets an opaque address string)",
+        "'at the stated path' is read as the path below the declared xpub: the library trims the metadata path by the xpub's depth and does not compare "
+        "the trimmed prefix with the xpub's own origin",
+        "a p2sh scriptPubKey that commits to the p2wsh program of the attached witness script (p2sh-p2wsh) counts as committing by hash",
+        "symbolic public-key bytes inside derivation records, hardened / malformed / longer derivation paths, more than 3 cosigners, partial "
+        "signatures, finalised inputs, p2sh-p2wsh inputs",
+        "psbt_helper.create_multisig_psbt (its address / fee cross-checks compare concrete values parsed from hex strings)"],
+    "stubs": ["sha256 / ripemd160 (hash160, hash256) are uninterpreted functions on symbolic input, real on concrete input",
+              "concrete secp256k1 results (P + k*G, SEC decompression) are memoised across paths and across replays: the first call runs the real code",
+              "base58check / bech32 encoding of a symbolic scriptPubKey returns an opaque non-empty string", "print() empty"],
+    "assumptions": ["collision-resistance instances (O3): an altered previous transaction does not hash256 to the original txid; an altered redeem / "
+                    "witness script does not hash160 / sha256 to the original's digest",
+                    "sum(inputs) > 0 (with a zero total the real code raises ZeroDivisionError while computing the fee percentage)",
+                    "the independent BIP32 / secp256k1 / BIP174 / multisig-script layout written in checks/c11.py is the reference (the native library "
+                    "derives the same keys: every honest PSBT built by it is accepted by the real parser)"],
+}
+
+MANIFEST = {"technique": "symbolic execution of the real PSBT.parse / PSBTIn.validate / PSBTOut.validate / PSBT.describe_basic_multisig on byte strings "
+                         "written by an independent BIP174 serialiser, with symbolic amounts, scriptPubKey hash bytes, fingerprints and opcodes; hashes "
+                         "as uninterpreted functions; z3 decides every path (LIA for the amount sums, bit-vectors elsewhere); the oracle re-derives "
+                         "the cosigner keys with an independent BIP32 / secp256k1 implementation"}
 
 MAX_SATS = 21 * 10 ** 14
 
@@ -290,7 +334,8 @@ def genuine_script(cos, m, rel):
 
 
 def out_keyset(sc, o):
-    """(script keys in script order, derivs [(sec, cosigner index naming it (or None), rel path)]) for a change candidate"""
+    """(script keys in script order, derivation records [(sec, index of the cosigner the record names, path below the xpub)]) of a
+    change candidate, per key case"""
     cos, foreign = wallet(sc["kind"], sc["n"])
     rel = o["rel"]
     kc = o["keys"]
@@ -318,7 +363,8 @@ def out_keyset(sc, o):
 
 
 def build(sc, vals):
-    """returns (model for spec_psbt, info) ; info: honest totals and what the oracle needs"""
+    """returns (model for spec_psbt, info); info["outs"][k] is None for a payee output, else what the oracle needs about the candidate:
+    scriptPubKey kind and hash, attached script, derivation records (fingerprint, path below the xpub)"""
     kind, m, n = sc["kind"], sc["m"], sc["n"]
     cos, foreign = wallet(kind, n)
     tam = vals.get("tamper", {})
@@ -520,6 +566,7 @@ class SymKeyDict(dict):
         return dict.__getitem__(self, k)
 
 
+_DEBUG = bool(__import__("os").environ.get("C11_DEBUG"))
 REJECTIONS = {"ValueError", "KeyError", "SuspiciousTransaction", "MixedNetwork", "SyntaxError", "OSError", "RuntimeError", "IndexError",
               "ZeroDivisionError"}
 
@@ -555,6 +602,8 @@ def run_real(sc, raw, mods=None, native=False):
             # not an error the library raises on purpose: an engine artefact must never count as a rejection
             import traceback
             raise core.Inconclusive(f"unexpected {type(e).__name__}: {e} :: " + traceback.format_exc()[-700:])
+        if _DEBUG:
+            return "rejected", type(e).__name__ + ": " + str(e).replace("\n", " ")[:90]
         return "rejected", type(e).__name__
     return "ok", d
 
@@ -669,18 +718,27 @@ def arith_scenarios(kind, m, n, n_in, n_out):
         yield {"kind": kind, "m": m, "n": n, "mode": "xpubs" if (n_in + n_out + len(pl)) % 2 == 0 else "map", "ins": ins, "outs": outs}
 
 
-def ob_arith(kind, m, n, n_in, n_out):
+def _ob_arith(kind, m, n, n_ins, n_outs):
     runs = []
-    for sc in arith_scenarios(kind, m, n, n_in, n_out):
-        nchange = sum(1 for o in sc["outs"] if o["type"] == "change")
-        runs.append(sym_run(lambda: _arith_path(sc), expect_classes=["ok"] if nchange <= 1 else ["rejected:SuspiciousTransaction"]))
+    for n_in in n_ins:
+        for n_out in n_outs:
+            for sc in arith_scenarios(kind, m, n, n_in, n_out):
+                nchange = sum(1 for o in sc["outs"] if o["type"] == "change")
+                # sums of amounts: linear integer arithmetic
+                runs.append(sym_run(lambda: _arith_path(sc), mode="int",
+                                    expect_classes=["ok"] if nchange <= 1 else ["rejected:SuspiciousTransaction"]))
     r = merge_runs(runs)
-    r["sample"] = {"wallet": f"{kind} {m}-of-{n}", "inputs": n_in, "outputs": n_out, "amounts": f"all symbolic in [0, {MAX_SATS}]",
-                   "change placements": "none, each position, two change outputs"}
+    r["sample"] = {"wallet": f"{kind} {m}-of-{n}", "inputs": list(n_ins), "outputs": list(n_outs), "amounts": f"all symbolic in [0, {MAX_SATS}]",
+                   "change placements": "none, each position, two change outputs", "scenarios": len(runs)}
     return r
 
 
 # ---------------------------------------------------------------------------------------- O2 change soundness
+
+def _op_range():
+    import os
+    return (0x50, 0x54) if os.environ.get("VERIF_TIER", "quick") == "quick" else (0x4F, 0x58)
+
 
 def _change_path(sc, sym_ops):
     o = sc["outs"][1]
@@ -688,8 +746,9 @@ def _change_path(sc, sym_ops):
     assume(vals["in_amt"][0] > 0)
     if sym_ops:
         # quorum opcodes of the attached script: solver-chosen, one path per value (hash inputs stay concrete)
-        vals["m_op"] = {"1": concretize(SI.var("m_op", 0x50, 0x54))}
-        vals["n_op"] = {"1": concretize(SI.var("n_op", 0x50, 0x54))}
+        lo, hi = _op_range()
+        vals["m_op"] = {"1": concretize(SI.var("m_op", lo, hi))}
+        vals["n_op"] = {"1": concretize(SI.var("n_op", lo, hi))}
     vals["h"] = {"1": SBytes.sym("spk_hash", 20 if o["spk"] == "p2sh" else 32)}
     if sc["mode"] == "map":
         _, named = out_keyset(sc, o)
@@ -702,23 +761,40 @@ def _change_path(sc, sym_ops):
         return "rejected:" + d
     check(d["outputs_desc"][0]["is_change"] is False, "payee output labelled change", witness=w)
     if d["outputs_desc"][1]["is_change"]:
-        check(commit_cond(sc, info["outs"][1]),
-              "output labelled change, but its scriptPubKey does not commit to an m-of-n script with one key per cosigner xpub", witness=w)
+        oi = info["outs"][1]
+        commit = commit_cond(sc, oi)
+        check(commit, "output labelled change, but its scriptPubKey does not commit to an m-of-n script with one key per cosigner xpub", witness=w)
+        # the same claim restricted to scriptPubKeys that do commit to the attached script (isolates what the metadata checks let through)
+        att = attached_commit(oi)
+        check(s_implies(att, commit), "output labelled change and its scriptPubKey commits to the attached script, but that script is not an "
+                                      "m-of-n script (inputs' quorum) with one key per cosigner xpub", witness=w)
         return "ok:change"
     check(True, "not labelled change")
     return "ok:spend"
 
 
+def attached_commit(oi):
+    """the scriptPubKey hash equals the hash of the script attached to the output (directly, or through the attached p2wsh redeem script)"""
+    h, script = oi["h"], oi["script"]
+    if oi["attach"] == "both":
+        return h == hhash160(b"\x00\x20" + hsha256(script))
+    if oi["spk"] == "p2sh":
+        return h == hhash160(script)
+    return h == hsha256(script)
+
+
 SHAPES = [("p2sh", "redeem"), ("p2wsh", "witness"), ("p2wsh", "redeem"), ("p2sh", "witness"), ("p2sh", "both")]
 
 
-def ob_change(kind, m, n, mode, keys, sym_ops):
+def _ob_change(kind, m, n, mode, keycases, sym_ops):
     runs = []
-    for spk, attach in SHAPES:
-        sc = {"kind": kind, "m": m, "n": n, "mode": mode, "ins": [{"rel": [0, 0]}],
-              "outs": [{"type": "spend"}, {"type": "change", "spk": spk, "attach": attach, "keys": keys, "rel": [1, 2]}]}
-        natural = keys == "genuine" and (spk, attach) in (("p2sh", "redeem"), ("p2wsh", "witness"), ("p2sh", "both"))
-        runs.append(sym_run(lambda: _change_path(sc, sym_ops), expect_classes=["ok:change"] if natural else None, max_violations=12))
+    for keys in keycases:
+        for spk, attach in SHAPES:
+            sc = {"kind": kind, "m": m, "n": n, "mode": mode, "ins": [{"rel": [0, 0]}],
+                  "outs": [{"type": "spend"}, {"type": "change", "spk": spk, "attach": attach, "keys": keys, "rel": [1, 2]}]}
+            natural = keys == "genuine" and (spk, attach) in (("p2sh", "redeem"), ("p2wsh", "witness"), ("p2sh", "both"))
+            runs.append(sym_run(lambda: _change_path(sc, sym_ops), expect_classes=["ok:change"] if natural else None))
+    keys = list(keycases)
     r = merge_runs(runs)
     r["sample"] = {"wallet": f"{kind} {m}-of-{n}", "xpubs via": mode, "candidate output": "scriptPubKey hash bytes symbolic; shapes " + str(SHAPES),
                    "attached script keys": keys, "quorum opcodes": "symbolic in [0x50,0x54]" if sym_ops else "as the inputs",
@@ -728,13 +804,13 @@ def ob_change(kind, m, n, mode, keys, sym_ops):
 
 # ---------------------------------------------------------------------------------------- O3 tamper rejection
 
-def _sym_script_tamper(cos, m, nkeys, rel, tag):
-    keys = sorted(c.key(rel) for c in cos)
-    return {"pos": 0, "key": SBytes.sym(f"{tag}.key", 33), "m_op": SI.var(f"{tag}.m_op", 0x50, 0x54), "n_op": SI.var(f"{tag}.n_op", 0x50, 0x54)}, keys
+def _sym_script_tamper(tag):
+    """the first key (33 bytes) and both quorum opcodes of an attached script, solver-chosen"""
+    return {"pos": 0, "key": SBytes.sym(f"{tag}.key", 33), "m_op": SI.var(f"{tag}.m_op", 0x50, 0x54), "n_op": SI.var(f"{tag}.n_op", 0x50, 0x54)}
 
 
 def _tamper_path(sc, what):
-    kind, m, n = sc["kind"], sc["m"], sc["n"]
+    kind, n = sc["kind"], sc["n"]
     cos, foreign = wallet(kind, n)
     n_in, n_out = len(sc["ins"]), len(sc["outs"])
     vals = _amounts(n_in, n_out)
@@ -743,16 +819,15 @@ def _tamper_path(sc, what):
     tam = {}
     ck = next(k for k, o in enumerate(sc["outs"]) if o["type"] == "change")
     if what == "prev":
-        rel = sc["ins"][0]["rel"]
         f = {"version": SI.var("p.version", 0, 0xFFFFFFFF), "seq": SI.var("p.seq", 0, 0xFFFFFFFF), "amt0": SI.var("p.amt0", 0, MAX_SATS),
              "h0": SBytes.sym("p.h0", 20), "amt1": SI.var("p.amt1", 0, MAX_SATS), "lock": SI.var("p.lock", 0, 0xFFFFFFFF)}
         tam["prev"] = {"0": f}
     elif what == "wutxo":
         tam["wutxo_h"] = {"0": SBytes.sym("u.h", 32)}
     elif what == "in_script":
-        tam["in_script"] = {"0": _sym_script_tamper(cos, m, n, sc["ins"][0]["rel"], "s")[0]}
+        tam["in_script"] = {"0": _sym_script_tamper("s")}
     elif what == "out_script":
-        tam["out_script"] = {str(ck): _sym_script_tamper(cos, m, n, sc["outs"][ck]["rel"], "s")[0]}
+        tam["out_script"] = {str(ck): _sym_script_tamper("s")}
     elif what in ("in_fp", "out_fp"):
         j = concretize(SI.var("which_key", 0, n - 1))
         if sc["mode"] == "map":
@@ -787,13 +862,17 @@ def _tamper_path(sc, what):
     return "ok"
 
 
-def ob_tamper(kind, m, n, mode, what):
+def _ob_tamper(kind, m, n, mode, whats):
     sc = {"kind": kind, "m": m, "n": n, "mode": mode, "ins": [{"rel": [0, 0]}, {"rel": [0, 1]}],
           "outs": [{"type": "spend"}, _change_out(kind, 1)]}
-    r = sym_run(lambda: _tamper_path(sc, what), max_violations=12)
-    if not any(k.startswith("'rejected") for k in r["classes"]):
-        r["inconclusive"].append("reachability twin: no rejecting path")
-    r["sample"] = {"wallet": f"{kind} {m}-of-{n}", "xpubs via": mode, "altered": what, "PSBT": "2 inputs, payee + genuine change"}
+    runs = []
+    for what in whats:
+        r = sym_run(lambda: _tamper_path(sc, what))
+        if not any(k.startswith("'rejected") for k in r["classes"]):
+            r["inconclusive"].append(f"reachability twin: no rejecting path for {what}")
+        runs.append(r)
+    r = merge_runs(runs)
+    r["sample"] = {"wallet": f"{kind} {m}-of-{n}", "xpubs via": mode, "altered": list(whats), "PSBT": "2 inputs, payee + genuine change"}
     return r
 
 
@@ -881,18 +960,15 @@ def _representatives(r, per=2):
     return r
 
 
-_ob_arith, _ob_change, _ob_tamper = ob_arith, ob_change, ob_tamper
-
-
-def ob_arith(**k):  # noqa: F811
+def ob_arith(**k):
     return _representatives(_ob_arith(**k))
 
 
-def ob_change(**k):  # noqa: F811
+def ob_change(**k):
     return _representatives(_ob_change(**k))
 
 
-def ob_tamper(**k):  # noqa: F811
+def ob_tamper(**k):
     return _representatives(_ob_tamper(**k))
 
 
@@ -902,22 +978,21 @@ KEYCASES = ["genuine", "one", "foreign_replace", "foreign_add", "drop"]
 
 def obligations(tier):
     q = tier == "quick"
+    # the spec wallets are derived once here (the runner forks its workers after this call)
+    for kind, m, n in WALLETS:
+        wallet(kind, n)
     obs = []
-    counts = [1, 2, 3]
     for kind, m, n in WALLETS:
-        for n_in in counts:
-            for n_out in counts:
-                obs.append(Ob("O1-arith", ob_arith, {"kind": kind, "m": m, "n": n, "n_in": n_in, "n_out": n_out}, replay="summary", budget_s=900))
+        obs.append(Ob("O1-arith", ob_arith, {"kind": kind, "m": m, "n": n, "n_ins": (1, 2, 3), "n_outs": (1, 2, 3)}, replay="summary", budget_s=1200))
     for kind, m, n in WALLETS:
-        for keys in KEYCASES:
-            for mode, sym_ops in (("xpubs", False), ("map", False), ("xpubs", True)) + ((("map", True),) if not q else ()):
-                obs.append(Ob("O2-change", ob_change, {"kind": kind, "m": m, "n": n, "mode": mode, "keys": keys, "sym_ops": sym_ops},
-                              replay="summary", budget_s=900))
+        for mode, sym_ops in (("xpubs", False), ("map", False), ("xpubs", True)) + ((("map", True),) if not q else ()):
+            obs.append(Ob("O2-change", ob_change, {"kind": kind, "m": m, "n": n, "mode": mode, "keycases": tuple(KEYCASES), "sym_ops": sym_ops},
+                          replay="summary", budget_s=1200))
     for kind, m, n in WALLETS:
         for mode in ("xpubs", "map"):
             whats = (["prev"] if kind == "p2sh" else ["wutxo"]) + ["in_script", "out_script", "in_fp", "out_fp", "in_path", "out_path"]
-            for what in whats:
-                if mode == "map" and what in ("prev", "wutxo", "in_script", "out_script") and q:
-                    continue  # these alterations are rejected by PSBT.parse before the xpub source matters; both modes in the thorough tier
-                obs.append(Ob("O3-tamper", ob_tamper, {"kind": kind, "m": m, "n": n, "mode": mode, "what": what}, replay="summary", budget_s=900))
+            if mode == "map" and q:
+                # alterations of UTXO / scripts are rejected by PSBT.parse before the xpub source matters; both modes in the thorough tier
+                whats = whats[3:]
+            obs.append(Ob("O3-tamper", ob_tamper, {"kind": kind, "m": m, "n": n, "mode": mode, "whats": tuple(whats)}, replay="summary", budget_s=1200))
     return obs
